@@ -436,6 +436,28 @@ func validateSecurityRequirement(ctx context.Context, input *RequestValidationIn
 		}
 	}
 
+	// if there was a request body, then make sure we put it back into the `input`,
+	// whichever way this function returns
+	defer func() {
+		if data != nil {
+			var err error
+			// Put the data back into the input
+			input.Request.Body = nil
+			if input.Request.GetBody != nil {
+				if input.Request.Body, err = input.Request.GetBody(); err != nil {
+					input.Request.Body = nil
+				}
+			}
+			if input.Request.Body == nil {
+				input.Request.ContentLength = int64(len(data))
+				input.Request.GetBody = func() (io.ReadCloser, error) {
+					return io.NopCloser(bytes.NewReader(data)), nil
+				}
+				input.Request.Body, _ = input.Request.GetBody() // no error return
+			}
+		}
+	}()
+
 	// For each scheme for the requirement
 	for _, name := range names {
 		var securityScheme *openapi3.SecurityScheme
@@ -481,23 +503,5 @@ func validateSecurityRequirement(ctx context.Context, input *RequestValidationIn
 		}
 	}
 
-	// if there was a request body, then make sure we put it back into the `input`
-	if data != nil {
-		var err error
-		// Put the data back into the input
-		input.Request.Body = nil
-		if input.Request.GetBody != nil {
-			if input.Request.Body, err = input.Request.GetBody(); err != nil {
-				input.Request.Body = nil
-			}
-		}
-		if input.Request.Body == nil {
-			input.Request.ContentLength = int64(len(data))
-			input.Request.GetBody = func() (io.ReadCloser, error) {
-				return io.NopCloser(bytes.NewReader(data)), nil
-			}
-			input.Request.Body, _ = input.Request.GetBody() // no error return
-		}
-	}
 	return nil
 }
